@@ -293,7 +293,7 @@ func (c *Client) plan() {
 			}
 			data := []byte(m.Text)
 			if m.Text == "" {
-				data = payloadFor(m.ID, m.Size)
+				data = payloadForC(m.ID, m.Size, m.Chars)
 			}
 			c.enqueue(ref.Packet{Type: tMessage, Data: data, Binary: m.Binary})
 		}})
@@ -391,10 +391,33 @@ func kindPrefix(bin bool) string {
 }
 
 // payloadFor builds the unique payload of message id with the given size.
-func payloadFor(id string, size int) []byte {
+func payloadFor(id string, size int) []byte { return payloadForC(id, size, "") }
+
+// payloadForC pads the unique id up to size bytes with characters of a class:
+// "" plain, "html" (markup-significant characters and script terminators), "esc"
+// (backslashes, literal backslash-n, real newlines, quotes), "uni" (multi-byte and
+// astral-plane characters, line separators U+2028/2029), "num" (digits and colons,
+// which look like revision-3 length prefixes).  A text message may hold any of these.
+func payloadForC(id string, size int, chars string) []byte {
 	b := []byte(id + ":")
+	var alpha []string
+	switch chars {
+	case "html":
+		alpha = []string{"<", ">", "&", "</script>", "<!--", "'", "\"", "<script>", "&amp;", "a"}
+	case "esc":
+		alpha = []string{"\\", "\\n", "\n", "\r", "\t", "\"", "\\\\n", "n", "\\\\", "/"}
+	case "uni":
+		alpha = []string{"\u2028", "\u2029", "\u00e9", "\U0001F600", "\u4e2d", "z", "\ufeff", "\u0301"}
+	case "num":
+		alpha = []string{":", "1", "0", "9:", "4", "2:4", "b4", "-1:", "255"}
+	default:
+		for i := 0; len(b) < size; i++ {
+			b = append(b, "abcdefghijklmnopqrstuvwxyz0123456789-_ABCDEFGHIJKLMNOPQRSTUVWXYZ"[(i*7+len(id))%64])
+		}
+		return b
+	}
 	for i := 0; len(b) < size; i++ {
-		b = append(b, "abcdefghijklmnopqrstuvwxyz0123456789-_ABCDEFGHIJKLMNOPQRSTUVWXYZ"[(i*7+len(id))%64])
+		b = append(b, alpha[(i*5+len(id))%len(alpha)]...)
 	}
 	return b
 }
@@ -578,7 +601,7 @@ func (c *Client) writeLoop() {
 		h["Content-Type"] = ctype
 		c.posting = true
 		c.lat()
-		req, r := c.w.newRequest(c.name, ReqSpec{Method: "POST", Path: c.path(), Query: c.query("polling"), Hdr: h, Body: body})
+		req, r := c.w.newRequest(c.name, ReqSpec{Method: "POST", Path: c.path(), Query: c.query("polling"), Hdr: h, Body: body, NoCL: c.sp.NoCL})
 		c.postResp = r
 		var pl []string
 		for _, p := range q {
@@ -862,6 +885,18 @@ func (c *Client) doFault(f FaultSpec) {
 			c.w.fault("stream-eof")
 			c.stream.close()
 			c.fail("client eof")
+		}
+	case "extra-pong":
+		// an unsolicited (or duplicated) pong on a revision-4 session: the server accepts it like any pong
+		if c.eio() == 4 {
+			c.w.fault("extra-pong")
+			n := 1
+			if f.Arg > 1 {
+				n = f.Arg
+			}
+			for i := 0; i < n; i++ {
+				c.enqueue(ref.Packet{Type: tPong})
+			}
 		}
 	case "bad-packet":
 		c.w.fault("bad-packet")
